@@ -27,7 +27,7 @@ CLAIMED = {
     "C12": ("goal-order rules over the catch/throw clauses of builtins.pl (plread), effect summaries of the Rust exception primitives (typed HIR, MIR order), who-may-build-a-thrown-error over every Err(..) of type Result<_, MachineStub>",
             "Decides the control skeleton of catch/3 and throw/1 and the form of builtin errors: throw/1 stores the thrown term (an instantiation error for an unbound ball) before it unwinds; catch/3 captures the outer block before installing its own; the recovery clause restores the outer block, fetches a copy of the ball, parks it and hands it to handle_ball/3, which unifies ball and catcher in its head, commits and calls the recovery, or restores the ball and unwinds again; set_ball stores a copy, unwind_stack cuts to the innermost block and fails, the block and ball-stack primitives do what those clauses need; every error a builtin raises (266 Err(stub) sites, 65 Err(generator) sites, 371 direct throws) is built by error_form, i.e. is error(Formal, Context); every cut that prunes choice points gives the installed cleanups a chance to run, and the loops running pending cleanups go on when one fails. The rest of setup_call_cleanup/3's Prolog driver and the undoing of bindings (C11) are not decided here."),
     "C22": ("path-condition rules over the clause trees of the atom/character predicates in builtins.pl (plread); match-arm rule over the typed HIR of the Rust primitives",
-            "Decides the error clause only: every call of the primitives '$atom_length', '$atom_chars', '$atom_codes', '$char_code' in atom_length/2, atom_chars/2, atom_codes/2, char_code/2, atom_concat/3, sub_atom/5 and their helpers is reached only under a succeeded type test of each argument; every throw there is error(E, PI) with E an ISO error term and PI the predicate's own indicator; the culprit of a type or domain error is the argument whose matching test failed on that path, and an instantiation error follows a var test; in the Rust primitives the arm for an arbitrary-precision integer does not unwrap its narrowing to a machine integer (a code beyond the small-integer range is a representation error, not a panic). The solution sequences of the enumerating modes and the string results are not decided."),
+            "Decides the error clause only: every call of the primitives '$atom_length', '$atom_chars', '$atom_codes', '$char_code' in atom_length/2, atom_chars/2, atom_codes/2, char_code/2, atom_concat/3, sub_atom/5 and their helpers is reached only under a succeeded type test of each argument; every throw there is error(E, PI) with E an ISO error term and PI the predicate's own indicator; the culprit of a type or domain error is the argument whose matching test failed on that path, and an instantiation error follows a var test; in the Rust primitives the arm for an arbitrary-precision integer does not unwrap its narrowing to a machine integer (a code beyond the small-integer range is a representation error, not a panic); each of the 27 classification tests of the char_type/2 primitive tests the class its atom names, the two case conversions call the conversion their functor names, and charsio.pl enumerates exactly the implemented classes. The solution sequences of the enumerating modes and the string results are not decided."),
     "C25": ("goal-order and variable-plumbing rules over the findall/forall clauses (plread) + effect summaries of the lifted-heap primitives (typed HIR)",
             "Decides the collection protocol under every all-solutions predicate: findall/3 and findall/4 remember the length of the solution store before iterating, iterate under catch/3 and on an error cut the store back to that length and re-throw; the iteration predicate calls the goal, copies the template to the store after each solution and fails back; its last clause hands over what was collected since the remembered length; forall/2 is \\+ (G, \\+ T); '$copy_to_lh' stores a copy, '$get_lh_from_offset[_diff]' copies back and cuts the store to the offset given; bagof/3 and setof/3 are the same goal sequence up to keysort/2 vs sort/2, order the pairs after the variant witnesses were made identical, and group by the free variables minus the ^-quantified ones (set difference by identity). The grouping algorithm itself (split_by_variant), countall/2 and call_nth/2 are not decided."),
     "C03": ("table agreement between the two evaluators over typed HIR (custom rustc driver)",
@@ -53,7 +53,7 @@ CLAIMED = {
     "C20": ("exhaustive-sibling rule over every HeapCellValueTag match; sibling agreement inside compare_pstr_slices",
             "Decides the representation clause: every tag dispatch that names the list cell also names the packed-string cell (and conversely) or is a reasoned exception, and every tail index returned by the string-segment comparison is computed from the same slice's scanned tail and cell offset; the walkers that turn a string into a list continue in both spellings; two strings are ordered by whole code points (the decoding window spans a UTF-8 sequence); a structure cell is taken for a list cell only after its functor was read; a location inside a string advances by bytes and the tail cell is found from the terminator; a NUL inside an instruction's string literal is not taken for the literal's end. Offset arithmetic elsewhere is not decided."),
     "C21": ("table agreement between the build-script crate and atom_table.rs; who-may-fabricate atoms; lookup-dominates-allocation (MIR)",
-            "Decides that the inline/interned split, its length constant and its bit encoding are the same function of the text at build time and at run time, that raw atom values are fabricated only at listed decoders, that interning looks the text up before allocating, and that table hash/equality and atom order go through the text."),
+            "Decides that the inline/interned split, its length constant and its bit encoding are the same function of the text at build time and at run time, that raw atom values are fabricated only at listed decoders, that interning looks the text up before allocating, that table hash/equality and atom order go through the text, and that every caller of the inline-only text accessor also handles the atoms stored in the static and the shared table."),
     "C28": ("must-pass-through and dominance over MIR CFGs of QueryState::next / Machine::run_query; stub-frame effect table",
             "Decides the acquire/release structure of an embedded query: the ball is copied with alignment and cleared on every reporting path, the stub choice point is fully initialised (heap mark = current top) and pushed before the goal starts, the success continuation is set, the end test compares with this query's stub, Drop releases relative to that stub and forgets every setup_call_cleanup/3 block installed above it, restoring the block that was current below the lowest of them; every cell kind of an answer yields a term and anonymous variables of one answer get distinct names. Answer contents are not decided."),
     "C30": ("type-resolved escape-hatch rule over every Result<_, AllocError> expression in the crate",
@@ -73,7 +73,9 @@ CLAIMED = {
     "C44": ("clause-table agreement (plread) between current_prolog_flag/2, set_prolog_flag/2 and the Rust getters/setters",
             "Decides that each flag is produced the same way when given and when enumerated (binding, not comparing), that read-only flags accept exactly their own value, that Prolog atoms, Rust setter atoms and getter atoms coincide and are mutually inverse, that bad values end in flag_value domain errors, that both predicates end with the flag/type error clauses, and that the occurs_check setters install objects reporting the set value head unification honours the flag, and each value of the unknown flag reaches the branch of the undefined-procedure path that implements it."),
     "C45": ("effect summary and data flow of read_term_body / write_read_term_options over typed HIR; reachability from both readers",
-            "Decides the plumbing clause only: how variables/1, variable_names/1 and singletons/1 are derived from the term just read. The first-occurrence index of every variable is its position in an insertion-ordered table filled by one preorder traversal of the term; a second sighting clears the occurs-once flag; variables/1 and variable_names/1 are both built from the variable list sorted ascending by that index, variable_names/1 leaving out only the anonymous variable; singletons/1 keeps the non-anonymous variables whose flag is still set (so _-prefixed ones are included); both readers bind the options through this function. What the parser puts into the term and the traversal order of the iterator are not decided."),
+            "Decides the plumbing clause only: how variables/1, variable_names/1 and singletons/1 are derived from the term just read. The first-occurrence index of every variable is its position in an insertion-ordered table filled by one preorder traversal of the term; a second sighting clears the occurs-once flag; variables/1 and variable_names/1 are both built from the variable list sorted ascending by that index, variable_names/1 leaving out only the anonymous variable; singletons/1 keeps the non-anonymous variables whose flag is still set (so _-prefixed ones are included); both readers bind the options through this function, which delivers the lists once and only after the traversal; every variable the term writer writes (named or anonymous, at the root or below) enters the dictionary the lists are made from, an anonymous one under a key made from its own cell. The traversal order of the iterator is not decided."),
+    "C48": ("type-resolved escape-hatch rule over the typed HIR of the file-system primitives; path-condition rules over files.pl (plread)",
+            "Decides error discipline and argument checking: none of the 13 Rust primitives behind library(files) unwraps or expects an io::Result (the file system may change between two system calls of one primitive, for any sequence of operations by other processes); every path argument of every primitive in files.pl has passed must_be(chars, _) before the call, directly or through the existence helpers, whose tests begin with that type test; the existence helpers throw existence_error for the path whose test failed and exported predicates pass their own indicator as context. Agreement of the answers with the operating system is not decided."),
     "C49": ("path-condition rules over the clause trees of between/3, numlist/3, length/2 and succ/2 (plread)",
             "Decides the argument-checking clause only: every arithmetic comparison or is/2 that reads an argument is reached only where the path has established that the argument is an integer (must_be, integer/1, can_be with nonvar, or the success of '$skip_max_list' for the length bound); succ/2 decrements only a number it has tested positive; every error helper call names the predicate it is in, a domain error is raised only for an argument known to be an integer, and length/2's error clauses come in the order domain error (after integer(N), !) then type error. The tuples enumerated, their order and termination are not decided."),
     "C50": ("sibling agreement of in-memory and stream read/write paths over typed HIR and the call graph",
@@ -101,7 +103,6 @@ NA = {
     "C42": "which definition answers a call over all module layouts (loader run-time state)",
     "C46": "BDD semantics of clp(B) in Prolog",
     "C47": "lazy vs. eager parsing equality over buffer boundaries: run-time values",
-    "C48": "agreement with the operating system's file system",
     "C51": "CSV Prolog DCG round-trip",
     "C53": "graph-theoretic results of Prolog code",
     "C54": "solution-set equivalence of reified conditionals in Prolog",
